@@ -3,35 +3,35 @@
    limit) and [crypto_ok C] the three facts assumed about them (AuthNProofs.crypto_ok); the instance the
    correspondence evaluates with satisfies them (C12_nonvacuous).  [step C] / [run C] are the model of the
    code as it is in the tree ([AuthN.cookie_checks_disabled] = true: the repaired session paths);
-   [step_gen C ccd] has the Disabled() test of the session paths as a parameter.
+   [step_gen C ccd rcp] has the Disabled() test of the session paths as a parameter.
    A history is any list of operations from the empty database: [reach C ccd cap ops]. *)
-From SG Require Import Base.Prelude C12.AuthN C12.Instance C12.AuthNProofs C12.OneTime.
+From SG Require Import Base.Prelude C12.AuthN C12.Instance C12.AuthNProofs C12.OneTime C12.Rest C12.RestProofs.
 Open Scope N_scope.
 
-Definition reach (C : crypto) (ccd : bool) (capacity : N) (ops : list op) : state C :=
-  run_gen C ccd (init C capacity) ops.
+Definition reach (C : crypto) (ccd rcp : bool) (capacity : N) (ops : list op) : state C :=
+  run_gen C ccd rcp (init C capacity) ops.
 
 (* histories around a change of the configured bcrypt cost: first anything without re-hashing logins (hashes of
    any cost), then anything in which every node hashes with cost c -- passwords set, and the cost that
    re-hashing logins (LoginRehash ... c, then their RehashSave attempts, scheduled freely) ask for *)
-Definition reach2 (C : crypto) (ccd : bool) (capacity : N) (ops0 : list op) (c : N) (ops1 : list op) : state C :=
-  run_gen C ccd (run_gen C ccd (init C capacity) ops0) ops1.
+Definition reach2 (C : crypto) (ccd rcp : bool) (capacity : N) (ops0 : list op) (c : N) (ops1 : list op) : state C :=
+  run_gen C ccd rcp (run_gen C ccd rcp (init C capacity) ops0) ops1.
 
 (* ---- passwords ---- *)
 
 (* AuthenticateUser (with or without the re-hash) succeeds only for an existing, enabled user and a password the
    stored hash verifies, i.e. one bcrypt cannot tell from the password last written for the user; among plain
    passwords (at most 72 bytes, no NUL byte) that is the user's current password itself *)
-Theorem C12_password_auth_sound : forall C, crypto_ok C -> forall ccd capacity ops o u q w,
-  let st := reach C ccd capacity ops in
-  password_login o u q -> authed (snd (step_gen C ccd st o)) = Some w ->
+Theorem C12_password_auth_sound : forall C, crypto_ok C -> forall ccd rcp capacity ops o u q w,
+  let st := reach C ccd rcp capacity ops in
+  password_login o u q -> authed (snd (step_gen C ccd rcp st o)) = Some w ->
   w = u /\ exists usr, alookup u (users st) = Some usr /\ u_disabled usr = false /\
     match u_hash usr with Some h => verify C h q = true | None => q = 0 end /\
     bkey C q = bkey C (u_pw usr) /\
     (plain C q = true -> plain C (u_pw usr) = true -> q = u_pw usr).
 Proof.
-  intros C OK ccd capacity ops o u q w st PL H.
-  destruct (password_auth_sound C OK ccd st o u q w (Inv_reach C ccd capacity ops) PL H) as [E [usr [Eu [Ed [Hv Hk]]]]].
+  intros C OK ccd rcp capacity ops o u q w st PL H.
+  destruct (password_auth_sound C OK ccd rcp st o u q w (Inv_reach C ccd rcp capacity ops) PL H) as [E [usr [Eu [Ed [Hv Hk]]]]].
   split; [exact E|]. exists usr. repeat split; auto.
   intros Pq Pp. apply (bkey_plain C OK); auto.
 Qed.
@@ -40,61 +40,104 @@ Print Assumptions C12_password_auth_sound.
 (* wrong and empty passwords: once p has been set for u, and until somebody sets u's password again, every
    other string is refused (p and the attempt plain; in particular "" = 0 when p is not empty), whatever else
    happens in between: disable/enable, delete, sessions, cache evictions, other users, and re-hashing logins
-   whose Save attempts are interleaved with all of that *)
-Theorem C12_wrong_password_rejected : forall C, crypto_ok C -> forall ccd capacity ops0 c ops1 u p salt o,
-  Forall no_login_rehash ops0 -> Forall (uniform c) ops1 ->
-  let st := reach2 C ccd capacity ops0 c ops1 in
+   whose Save attempts are interleaved with all of that -- nodes hashing with different bcrypt costs at the same
+   time included (rcp = true: the repaired rehashPassword, the model of the tree) *)
+Theorem C12_wrong_password_rejected : forall C, crypto_ok C -> forall ccd capacity ops0 u p salt c o,
+  let st := reach C ccd true capacity ops0 in
   o = CreateUser u p salt c \/ o = SetPassword u p salt c ->
-  snd (step_gen C ccd st o) = ODone ->
-  forall ops, Forall (fun o' => uniform c o' /\ ~ sets_password u o') ops ->
+  snd (step_gen C ccd true st o) = ODone ->
+  forall ops, Forall (fun o' => ~ sets_password u o') ops ->
   plain C p = true ->
   forall o' q, password_login o' u q -> q <> p -> plain C q = true ->
-    authed (snd (step_gen C ccd (run_gen C ccd (fst (step_gen C ccd st o)) ops) o')) = None.
+    authed (snd (step_gen C ccd true (run_gen C ccd true (fst (step_gen C ccd true st o)) ops) o')) = None.
 Proof.
-  intros C OK ccd capacity ops0 c ops1 u p salt o F0 F1 st. apply set_then_wrong_password_rejected.
-  - exact OK.
-  - apply Inv_run, Inv_reach.
-  - apply Good_reach; assumption.
+  intros C OK ccd capacity ops0 u p salt c o st Ho Hd ops NS.
+  apply (set_then_wrong_password_rejected C OK ccd true 0 st u p salt c o); auto.
+  - apply Inv_reach.
+  - apply Safe_reach_repaired; exact OK.
+  - intros E; discriminate E.
+  - eapply Forall_impl; [|exact NS]. intros x Hx. split; [intros E; discriminate E | exact Hx].
 Qed.
 Print Assumptions C12_wrong_password_rejected.
 
-(* re-hashing at login (rehashPassword): a Save attempt of an in-flight re-hash -- whatever was scheduled between
-   the login's read and this attempt: password changes, disabling, deletion and re-creation, other logins --
-   never makes the stored credential accept a string it refused before, never touches the disabled flag and
-   never creates or deletes a user; and unless the password presented was the empty string it leaves the set of
-   accepted strings exactly as it was.  In particular a superseded password is never written back.
-   (Hypothesis: one configured cost c; with two different costs in use at once it fails, see C12_Refuted.) *)
-Theorem C12_rehash_preserves_credentials : forall C, crypto_ok C -> forall ccd capacity ops0 c ops1 a salt,
+(* the same for either variant of the callback (in particular rcp = false, the code before the repair) under
+   the hypothesis it needs: one configured cost at a time -- first anything without re-hashing logins, then
+   anything in which every node hashes with cost c.  (This was the statement before the repair.) *)
+Theorem C12_wrong_password_rejected_single_cost : forall C, crypto_ok C -> forall ccd rcp capacity ops0 c ops1 u p salt o,
   Forall no_login_rehash ops0 -> Forall (uniform c) ops1 ->
-  let st := reach2 C ccd capacity ops0 c ops1 in
-  let st' := fst (step_gen C ccd st (RehashSave a salt)) in
+  let st := reach2 C ccd rcp capacity ops0 c ops1 in
+  o = CreateUser u p salt c \/ o = SetPassword u p salt c ->
+  snd (step_gen C ccd rcp st o) = ODone ->
+  forall ops, Forall (fun o' => uniform c o' /\ ~ sets_password u o') ops ->
+  plain C p = true ->
+  forall o' q, password_login o' u q -> q <> p -> plain C q = true ->
+    authed (snd (step_gen C ccd rcp (run_gen C ccd rcp (fst (step_gen C ccd rcp st o)) ops) o')) = None.
+Proof.
+  intros C OK ccd rcp capacity ops0 c ops1 u p salt o F0 F1 st Ho Hd ops NS.
+  apply (set_then_wrong_password_rejected C OK ccd rcp c st u p salt c o); auto.
+  - apply Inv_run, Inv_reach.
+  - apply Safe_reach_single_cost; assumption.
+  - intros _. destruct Ho as [-> | ->]; reflexivity.
+  - eapply Forall_impl; [|exact NS]. intros x [U Hx]. split; [intros _; exact U | exact Hx].
+Qed.
+Print Assumptions C12_wrong_password_rejected_single_cost.
+
+(* re-hashing at login (rehashPassword, the repaired callback: rcp = true), over ALL histories -- any number of
+   nodes hashing with any bcrypt costs at the same time: a Save attempt of an in-flight re-hash -- whatever was
+   scheduled between the login's read and this attempt: password changes, disabling, deletion and re-creation,
+   other logins -- never makes the stored credential accept a string it refused before, never touches the
+   disabled flag and never creates or deletes a user; and unless the password presented was the empty string it
+   leaves the set of accepted strings exactly as it was.  In particular a superseded password is never written
+   back.  (For the callback before the repair the statement fails: C12_Refuted.) *)
+Theorem C12_rehash_preserves_credentials : forall C, crypto_ok C -> forall ccd capacity ops a salt ev,
+  let st := reach C ccd true capacity ops in
+  let st' := fst (step_gen C ccd true st (RehashSave a salt ev)) in
   forall u,
     (forall x, creds C st' u x = true -> creds C st u x = true) /\
     option_map u_disabled (alookup u (users st')) = option_map u_disabled (alookup u (users st)) /\
     ((forall pd, alookup a (pending st) = Some pd -> p_pw pd <> 0) -> forall x, creds C st' u x = creds C st u x).
 Proof.
-  intros C OK ccd capacity ops0 c ops1 a salt F0 F1 st st' u.
-  assert (I : Inv C st) by apply Inv_run, Inv_reach.
-  assert (G : Good C c st) by (apply Good_reach; assumption).
-  destruct (rehash_never_widens C OK ccd c st a salt I G u) as [W D].
+  intros C OK ccd capacity ops a salt ev st st' u.
+  assert (I : Inv C st) by apply Inv_reach.
+  assert (G : Safe C true 0 st) by (apply Safe_reach_repaired; exact OK).
+  destruct (rehash_never_widens C OK ccd true 0 st a salt ev I G u) as [W D].
   split; [exact W|]. split; [exact D|].
-  intros NE x. apply (rehash_preserves C OK ccd c st a salt I G NE).
+  intros NE x. apply (rehash_preserves C OK ccd true 0 st a salt ev I G NE).
 Qed.
 Print Assumptions C12_rehash_preserves_credentials.
 
+(* either variant of the callback under the single-cost hypothesis (the statement before the repair) *)
+Theorem C12_rehash_preserves_credentials_single_cost : forall C, crypto_ok C -> forall ccd rcp capacity ops0 c ops1 a salt ev,
+  Forall no_login_rehash ops0 -> Forall (uniform c) ops1 ->
+  let st := reach2 C ccd rcp capacity ops0 c ops1 in
+  let st' := fst (step_gen C ccd rcp st (RehashSave a salt ev)) in
+  forall u,
+    (forall x, creds C st' u x = true -> creds C st u x = true) /\
+    option_map u_disabled (alookup u (users st')) = option_map u_disabled (alookup u (users st)) /\
+    ((forall pd, alookup a (pending st) = Some pd -> p_pw pd <> 0) -> forall x, creds C st' u x = creds C st u x).
+Proof.
+  intros C OK ccd rcp capacity ops0 c ops1 a salt ev F0 F1 st st' u.
+  assert (I : Inv C st) by apply Inv_run, Inv_reach.
+  assert (G : Safe C rcp c st) by (apply Safe_reach_single_cost; assumption).
+  destruct (rehash_never_widens C OK ccd rcp c st a salt ev I G u) as [W D].
+  split; [exact W|]. split; [exact D|].
+  intros NE x. apply (rehash_preserves C OK ccd rcp c st a salt ev I G NE).
+Qed.
+Print Assumptions C12_rehash_preserves_credentials_single_cost.
+
 (* the fast path never accepts a password the full check would reject: in every reachable state every
    cached pair (sha1 q, h) satisfies the full bcrypt check of q against h ... *)
-Theorem C12_cache_never_widens : forall C, crypto_ok C -> forall ccd capacity ops d h q,
-  In (d, h) (cache (reach C ccd capacity ops)) -> digest C q = d -> verify C h q = true.
-Proof. intros C OK ccd capacity ops d h q. apply cache_never_widens; [exact OK | apply Inv_reach]. Qed.
+Theorem C12_cache_never_widens : forall C, crypto_ok C -> forall ccd rcp capacity ops d h q,
+  In (d, h) (cache (reach C ccd rcp capacity ops)) -> digest C q = d -> verify C h q = true.
+Proof. intros C OK ccd rcp capacity ops d h q. apply cache_never_widens; [exact OK | apply Inv_reach]. Qed.
 Print Assumptions C12_cache_never_widens.
 
 (* ... hence AuthenticateUser decides exactly as it would with an empty cache *)
-Theorem C12_cache_transparent : forall C, crypto_ok C -> forall ccd capacity ops u q ev ev',
-  let st := reach C ccd capacity ops in
-  authed (snd (step_gen C ccd st (AuthPassword u q ev))) =
-  authed (snd (step_gen C ccd (with_cache st []) (AuthPassword u q ev'))).
-Proof. intros C OK ccd capacity ops u q ev ev' st. apply cache_transparent; [exact OK | apply Inv_reach]. Qed.
+Theorem C12_cache_transparent : forall C, crypto_ok C -> forall ccd rcp capacity ops u q ev ev',
+  let st := reach C ccd rcp capacity ops in
+  authed (snd (step_gen C ccd rcp st (AuthPassword u q ev))) =
+  authed (snd (step_gen C ccd rcp (with_cache st []) (AuthPassword u q ev'))).
+Proof. intros C OK ccd rcp capacity ops u q ev ev' st. apply cache_transparent; [exact OK | apply Inv_reach]. Qed.
 Print Assumptions C12_cache_transparent.
 
 (* ---- sessions ---- *)
@@ -104,18 +147,18 @@ Print Assumptions C12_cache_transparent.
    epoch; and, when the session paths test Disabled() (ccd = true, the repaired code), the user is enabled.
    For ccd = false (the code before the repair) the last clause is the explicit exception: see
    C12_Refuted.disabled_user_authenticates_with_cookie_refuted. *)
-Theorem C12_session_auth_sound : forall C ccd capacity ops sid o w,
-  let st := reach C ccd capacity ops in
-  presents o sid -> authed (snd (step_gen C ccd st o)) = Some w ->
+Theorem C12_session_auth_sound : forall C ccd rcp capacity ops sid o w,
+  let st := reach C ccd rcp capacity ops in
+  presents o sid -> authed (snd (step_gen C ccd rcp st o)) = Some w ->
   exists s usr, alookup sid (sessions st) = Some s /\ now st < s_expires s /\ s_user s = w /\
     In (CreateSession w sid (s_ttl s) (s_onetime s)) ops /\
     alookup w (users st) = Some usr /\ s_uuid s = u_uuid usr /\
     (ccd = true -> authenticates o sid -> u_disabled usr = false).
 Proof.
-  intros C ccd capacity ops sid o w st P H.
-  destruct (session_auth_sound C ccd st sid o w P H) as [s [usr [Es [Hl [Hu [Eu [Euu Hd]]]]]]].
+  intros C ccd rcp capacity ops sid o w st P H.
+  destruct (session_auth_sound C ccd rcp st sid o w P H) as [s [usr [Es [Hl [Hu [Eu [Euu Hd]]]]]]].
   exists s, usr. repeat split; auto.
-  subst w. exact (session_provenance C ccd capacity ops sid s Es).
+  subst w. exact (session_provenance C ccd rcp capacity ops sid s Es).
 Qed.
 Print Assumptions C12_session_auth_sound.
 
@@ -127,9 +170,9 @@ Theorem C12_disabled_user_never_authenticates : forall C, crypto_ok C -> forall 
   exists usr, alookup w (users st) = Some usr /\ u_disabled usr = false.
 Proof.
   intros C OK capacity ops o w st [[u [q PL]]|[sid A]] H.
-  - destruct (password_auth_sound C OK _ _ _ _ _ _ (Inv_reach C _ capacity ops) PL H) as [-> [usr [Eu [Ed _]]]]. eauto.
+  - destruct (password_auth_sound C OK _ _ _ _ _ _ _ (Inv_reach C _ _ capacity ops) PL H) as [-> [usr [Eu [Ed _]]]]. eauto.
   - assert (P : presents o sid) by (destruct A as [->| ->]; unfold presents; auto).
-    destruct (session_auth_sound C _ _ _ _ _ P H) as [s [usr [_ [_ [_ [Eu [_ Hd]]]]]]].
+    destruct (session_auth_sound C _ _ _ _ _ _ P H) as [s [usr [_ [_ [_ [Eu [_ Hd]]]]]]].
     exists usr. split; [exact Eu | exact (Hd eq_refl A)].
 Qed.
 Print Assumptions C12_disabled_user_never_authenticates.
@@ -137,78 +180,78 @@ Print Assumptions C12_disabled_user_never_authenticates.
 (* (the session theorems need nothing about bcrypt / SHA-1)
    a session id that is [dead] never yields a user again, whatever happens afterwards, provided the id is
    not issued a second time (session ids are 160 random bits: base.GenerateRandomSecret) *)
-Theorem C12_dead_session_stays_dead : forall C ccd capacity ops0 sid,
-  let st := reach C ccd capacity ops0 in
+Theorem C12_dead_session_stays_dead : forall C ccd rcp capacity ops0 sid,
+  let st := reach C ccd rcp capacity ops0 in
   dead C st sid ->
   forall ops o, no_recreate sid ops -> presents o sid ->
-    authed (snd (step_gen C ccd (run_gen C ccd st ops) o)) = None.
-Proof. intros C ccd capacity ops0 sid st D. apply killed_forever; [apply Inv_reach | exact D]. Qed.
+    authed (snd (step_gen C ccd rcp (run_gen C ccd rcp st ops) o)) = None.
+Proof. intros C ccd rcp capacity ops0 sid st D. apply killed_forever; [apply Inv_reach | exact D]. Qed.
 Print Assumptions C12_dead_session_stays_dead.
 
 (* what makes a session dead.  (1) sessions issued before a password change, or before "delete all sessions" *)
-Theorem C12_password_change_kills_sessions : forall C ccd capacity ops0 sid s o,
-  let st := reach C ccd capacity ops0 in
+Theorem C12_password_change_kills_sessions : forall C ccd rcp capacity ops0 sid s o,
+  let st := reach C ccd rcp capacity ops0 in
   alookup sid (sessions st) = Some s ->
   (exists p salt c, o = SetPassword (s_user s) p salt c) \/ o = InvalidateSessions (s_user s) ->
-  snd (step_gen C ccd st o) = ODone ->
+  snd (step_gen C ccd rcp st o) = ODone ->
   forall ops o', no_recreate sid ops -> presents o' sid ->
-    authed (snd (step_gen C ccd (run_gen C ccd (fst (step_gen C ccd st o)) ops) o')) = None.
+    authed (snd (step_gen C ccd rcp (run_gen C ccd rcp (fst (step_gen C ccd rcp st o)) ops) o')) = None.
 Proof.
-  intros C ccd capacity ops0 sid s o st Es Ho Hd.
+  intros C ccd rcp capacity ops0 sid s o st Es Ho Hd.
   apply killed_forever; [apply Inv_step, Inv_reach |].
-  apply (epoch_change_kills C ccd st sid s o); auto. apply Inv_reach.
+  apply (epoch_change_kills C ccd rcp st sid s o); auto. apply Inv_reach.
 Qed.
 Print Assumptions C12_password_change_kills_sessions.
 
 (* (2) sessions of a deleted user -- also after a user of the same name has been created again *)
-Theorem C12_recreated_user_old_session_dead : forall C ccd capacity ops0 sid s,
-  let st := reach C ccd capacity ops0 in
+Theorem C12_recreated_user_old_session_dead : forall C ccd rcp capacity ops0 sid s,
+  let st := reach C ccd rcp capacity ops0 in
   alookup sid (sessions st) = Some s ->
-  snd (step_gen C ccd st (DeleteUser (s_user s))) = ODone ->
+  snd (step_gen C ccd rcp st (DeleteUser (s_user s))) = ODone ->
   forall ops o', no_recreate sid ops -> presents o' sid ->
-    authed (snd (step_gen C ccd (run_gen C ccd (fst (step_gen C ccd st (DeleteUser (s_user s)))) ops) o')) = None.
+    authed (snd (step_gen C ccd rcp (run_gen C ccd rcp (fst (step_gen C ccd rcp st (DeleteUser (s_user s)))) ops) o')) = None.
 Proof.
-  intros C ccd capacity ops0 sid s st Es Hd.
+  intros C ccd rcp capacity ops0 sid s st Es Hd.
   apply killed_forever; [apply Inv_step, Inv_reach |].
   apply delete_user_kills; assumption.
 Qed.
 Print Assumptions C12_recreated_user_old_session_dead.
 
 (* (3) deleted sessions *)
-Theorem C12_deleted_session_dead : forall C ccd capacity ops0 sid,
-  let st := reach C ccd capacity ops0 in
+Theorem C12_deleted_session_dead : forall C ccd rcp capacity ops0 sid,
+  let st := reach C ccd rcp capacity ops0 in
   forall ops o', no_recreate sid ops -> presents o' sid ->
-    authed (snd (step_gen C ccd (run_gen C ccd (fst (step_gen C ccd st (DeleteSession sid))) ops) o')) = None.
+    authed (snd (step_gen C ccd rcp (run_gen C ccd rcp (fst (step_gen C ccd rcp st (DeleteSession sid))) ops) o')) = None.
 Proof.
-  intros C ccd capacity ops0 sid st.
+  intros C ccd rcp capacity ops0 sid st.
   apply killed_forever; [apply Inv_step, Inv_reach | apply delete_session_kills].
 Qed.
 Print Assumptions C12_deleted_session_dead.
 
 (* (4) expired sessions: once the clock has reached the expiry of the document *)
-Theorem C12_expired_session_dead : forall C ccd capacity ops0 sid s dt,
-  let st := reach C ccd capacity ops0 in
+Theorem C12_expired_session_dead : forall C ccd rcp capacity ops0 sid s dt,
+  let st := reach C ccd rcp capacity ops0 in
   alookup sid (sessions st) = Some s -> s_expires s <= now st + dt ->
   forall ops o', no_recreate sid ops -> presents o' sid ->
-    authed (snd (step_gen C ccd (run_gen C ccd (fst (step_gen C ccd st (Advance dt))) ops) o')) = None.
+    authed (snd (step_gen C ccd rcp (run_gen C ccd rcp (fst (step_gen C ccd rcp st (Advance dt))) ops) o')) = None.
 Proof.
-  intros C ccd capacity ops0 sid s dt st Es Hle.
+  intros C ccd rcp capacity ops0 sid s dt st Es Hle.
   apply killed_forever; [apply Inv_step, Inv_reach |].
-  apply (expiry_kills C ccd st sid s dt); assumption.
+  apply (expiry_kills C ccd rcp st sid s dt); assumption.
 Qed.
 Print Assumptions C12_expired_session_dead.
 
 (* (5) a one-time session that has authenticated once never authenticates again (sequentially) *)
-Theorem C12_one_time_at_most_once : forall C ccd capacity ops0 sid s o w,
-  let st := reach C ccd capacity ops0 in
+Theorem C12_one_time_at_most_once : forall C ccd rcp capacity ops0 sid s o w,
+  let st := reach C ccd rcp capacity ops0 in
   alookup sid (sessions st) = Some s -> s_onetime s = true ->
-  authenticates o sid -> authed (snd (step_gen C ccd st o)) = Some w ->
+  authenticates o sid -> authed (snd (step_gen C ccd rcp st o)) = Some w ->
   forall ops o', no_recreate sid ops -> presents o' sid ->
-    authed (snd (step_gen C ccd (run_gen C ccd (fst (step_gen C ccd st o)) ops) o')) = None.
+    authed (snd (step_gen C ccd rcp (run_gen C ccd rcp (fst (step_gen C ccd rcp st o)) ops) o')) = None.
 Proof.
-  intros C ccd capacity ops0 sid s o w st Es Hot A H.
+  intros C ccd rcp capacity ops0 sid s o w st Es Hot A H.
   apply killed_forever; [apply Inv_step, Inv_reach |].
-  apply absent_dead. exact (one_time_consumed C ccd st sid s o w Es Hot A H).
+  apply absent_dead. exact (one_time_consumed C ccd rcp st sid s o w Es Hot A H).
 Qed.
 Print Assumptions C12_one_time_at_most_once.
 
@@ -227,6 +270,76 @@ Theorem C12_one_time_at_most_once_concurrent : forall n (schedule : list event),
 Proof. exact one_time_concurrent. Qed.
 Print Assumptions C12_one_time_at_most_once_concurrent.
 
+(* ---- the REST layer (Rest.v: rest/handler.go checkPublicAuth, rest/session_api.go) ---- *)
+
+(* a REST history: admin requests that create / change / disable / delete users and the guest, create and delete
+   sessions, logins, logouts and authenticated requests, from the empty database *)
+Definition rreach (C : crypto) (ccd rcp : bool) (capacity : N) (rops : list rop) : rstate C :=
+  rrun C ccd rcp (rinit C capacity) rops.
+
+(* checkPublicAuth, in ANY state: a request is served as user w only if the core model's AuthPassword accepts w for
+   the Basic credentials presented (non-empty user name), or -- no usable Basic credentials -- its AuthCookie
+   accepts w for the session cookie presented; it is served as the guest only without usable Basic credentials
+   and, on a handler that requires authentication (public = false), only if no cookie was presented either and
+   the guest user is enabled.  (A publicPrivs handler -- GET/POST /_session -- falls back to the guest whatever
+   the cookie; a Bearer header counts for nothing: no OIDC provider is configured.) *)
+Theorem C12_rest_auth_sound : forall C ccd rcp (rs : rstate C) public cr,
+  match decide_outcome C ccd rcp rs public cr with
+  | Served (Some w) =>
+      (exists u p, cr_basic cr = Some (u, p) /\ u <> 0 /\
+         authed (snd (step_gen C ccd rcp (core rs) (AuthPassword u p None))) = Some w) \/
+      (basic_user cr = None /\ exists sid, cr_cookie cr = Some sid /\
+         authed (snd (step_gen C ccd rcp (core rs) (AuthCookie sid))) = Some w)
+  | Served None =>
+      basic_user cr = None /\ (public = true \/ (cr_cookie cr = None /\ guest_on rs = true))
+  | Denied _ => True
+  end.
+Proof. exact rest_auth_sound. Qed.
+Print Assumptions C12_rest_auth_sound.
+
+(* end to end, after ANY REST history: a request served as w means that w exists and either the Basic password is
+   verified by w's stored hash (for plain passwords: it IS the password last set) and w is enabled, or the cookie
+   names an unexpired session document issued for w that carries w's current credential epoch (and, with the
+   repaired session paths, w is enabled) *)
+Theorem C12_rest_served_user_sound : forall C, crypto_ok C -> forall ccd rcp capacity rops public cr w,
+  let rs := rreach C ccd rcp capacity rops in
+  decide_outcome C ccd rcp rs public cr = Served (Some w) ->
+  exists usr, alookup w (users (core rs)) = Some usr /\
+    ((exists u p, cr_basic cr = Some (u, p) /\ u <> 0 /\ w = u /\ u_disabled usr = false /\
+        match u_hash usr with Some h => verify C h p = true | None => p = 0 end /\
+        (plain C p = true -> plain C (u_pw usr) = true -> p = u_pw usr)) \/
+     (basic_user cr = None /\ exists sid s, cr_cookie cr = Some sid /\
+        alookup sid (sessions (core rs)) = Some s /\ now (core rs) < s_expires s /\ s_user s = w /\
+        s_uuid s = u_uuid usr /\ (ccd = true -> u_disabled usr = false))).
+Proof.
+  intros C OK ccd rcp capacity rops public cr w rs H.
+  destruct (rest_served_user_sound C OK ccd rcp rs public cr w (rInv_reach C ccd rcp capacity rops) H)
+    as [usr [Eu [[u [p [Eb [Hu [-> [Ed [Hv Hk]]]]]]]|R]]].
+  - exists usr. split; [exact Eu|]. left. exists u, p. repeat split; auto.
+    intros Pq Pp. apply (bkey_plain C OK); auto.
+  - exists usr. split; [exact Eu|]. right. exact R.
+Qed.
+Print Assumptions C12_rest_served_user_sound.
+
+(* rest/session_api.go: after DELETE /_user/{name}/_session (all sessions of the user), after a password change
+   through PUT /_user/{name} that answered 200, after DELETE /_user/{name} and after DELETE /_session/{id}, no
+   request presenting that session cookie is ever served as a user again -- whatever REST requests follow, as long
+   as the id is not issued a second time *)
+Theorem C12_rest_invalidated_session_never_serves : forall C ccd rcp capacity rops0 sid s o,
+  let rs := rreach C ccd rcp capacity rops0 in
+  alookup sid (sessions (core rs)) = Some s ->
+  rkills C ccd rcp rs sid s o ->
+  forall rops public cr w, Forall (rnot_create sid) rops -> basic_user cr = None -> cr_cookie cr = Some sid ->
+    decide_outcome C ccd rcp (rrun C ccd rcp (fst (rstep C ccd rcp rs o)) rops) public cr <> Served (Some w).
+Proof.
+  intros C ccd rcp capacity rops0 sid s o rs Es K rops public cr w F Eb Ec.
+  assert (I : Inv C (core rs)) by apply rInv_reach.
+  apply (rest_dead_session_never_serves C ccd rcp _ sid); auto.
+  - apply rInv_step; assumption.
+  - apply (rest_kill C ccd rcp rs sid s o); assumption.
+Qed.
+Print Assumptions C12_rest_invalidated_session_never_serves.
+
 (* non-vacuity: the hypotheses on the external functions are satisfiable (by the instance the correspondence
    evaluates with), and a concrete history authenticates with the password, with a cookie, once with a
    one-time session, and is refused with the wrong password and on the second one-time presentation *)
@@ -235,12 +348,30 @@ Example C12_nonvacuous :
   outs XC (init XC 10)
        [CreateUser 1 1 1 4; CreateSession 1 1 1000 false; CreateSession 1 2 1000 true;
         AuthPassword 1 1 None; AuthPassword 1 5 None; AuthCookie 1; AuthCookie 2; AuthCookie 2;
-        LoginRehash 7 1 1 None 5; SetPassword 1 5 2 5; RehashSave 7 3; RehashSave 7 4;
+        LoginRehash 7 1 1 None 5; SetPassword 1 5 2 5; RehashSave 7 3 None; RehashSave 7 4 None;
         AuthCookie 1; AuthPassword 1 1 None; AuthPassword 1 5 None;
-        CreateUser 2 1 5 4; LoginRehash 8 2 1 None 5; RehashSave 8 6; AuthPassword 2 1 None]
+        CreateUser 2 1 5 4; LoginRehash 8 2 1 None 5; RehashSave 8 6 None; AuthPassword 2 1 None]
   = [ODone; ODone; ODone; OPass (Some 1) 1; OPass None 1; OCookie (Some 1) false; OCookie (Some 1) false;
      OCookie None false;
      OPass (Some 1) 1; ODone; ORehash false; ORehash false;
      OCookie None false; OPass None 1; OPass (Some 1) 2;
      ODone; OPass (Some 2) 3; ORehash true; OPass (Some 2) 4].
 Proof. split; [exact XC_ok | vm_compute; reflexivity]. Qed.
+
+(* ... and a REST history: guest disabled / enabled, Basic auth right and wrong, a cookie from a login, the cookie
+   after "delete all sessions", an unknown cookie on a public and on a regular handler *)
+Example C12_rest_nonvacuous :
+  rest_outs XC (rinit XC 10)
+       [RPutUser 1 1 1; RRequest false (mkCreds None None false); RSetGuest true;
+        RRequest false (mkCreds None None false); RRequest false (mkCreds (Some (1, 1)) None false);
+        RRequest false (mkCreds (Some (1, 5)) None false); RLogin 1 1 1 false;
+        RRequest false (mkCreds None (Some 1) false); RDeleteAllSessions 1;
+        RRequest false (mkCreds None (Some 1) false); RRequest true (mkCreds None (Some 1) false);
+        RRequest false (mkCreds None (Some 9) false); RSetGuest false; RRequest false (mkCreds None None true)]
+  = [RCode 201; RAuth (Denied LoginRequired); RCode 200;
+     RAuth (Served None); RAuth (Served (Some 1));
+     RAuth (Denied InvalidLogin); RCode 200;
+     RAuth (Served (Some 1)); RCode 200;
+     RAuth (Denied SessionStale); RAuth (Served None);
+     RAuth (Denied SessionInvalid); RCode 200; RAuth (Denied InvalidLogin)].
+Proof. vm_compute. reflexivity. Qed.
